@@ -6,6 +6,7 @@ import (
 	"regexp"
 	"strings"
 	"testing"
+	"unicode/utf8"
 
 	jdoc "github.com/jsightapi/jsight-schema-core/formats/json"
 	"github.com/jsightapi/jsight-schema-core/notations/regex"
@@ -406,6 +407,7 @@ func registerAll() {
 	ev.Register("mutations", judgedMutations)
 	ev.Register("corpus", oracleNamed("corpus"))
 	ev.Register("tokens", oracleNamed("tokens"))
+	ev.Register("strings", judgedStrings)
 }
 
 func TestPropMutations(t *testing.T) {
@@ -493,6 +495,38 @@ func TestPropTokens(t *testing.T) {
 		t.Errorf("VIOLATION-CANDIDATE tokens: %d", bad)
 	}
 }
+
+// arbitrary bytes (malformed UTF-8 runs, controls, escapes) in every string position of every language
+func TestPropStrings(t *testing.T) {
+	registerAll()
+	ev.Rapid(t, "strings", ev.N(4000, 30000), func(t *rapid.T) Case {
+		ctx := rapid.SampledFrom(gen.StringContexts).Draw(t, "context")
+		text := strings.ReplaceAll(ctx, "%s", gen.HostileString(t, "s"))
+		entry := rapid.SampledFrom([]string{"schema", "schema", "enum", "regex", "doc"}).Draw(t, "entry")
+		if entry == "schema" {
+			return Case{Entry: entry, Project: &sut.Project{Root: text, Types: []sut.Named{{Name: "@a", Text: `"s"`}}}}
+		}
+		return Case{Entry: entry, Text: text}
+	}, judgedStrings)
+}
+
+var judgedStrings = func() func(Case) *ev.Verdict {
+	o := oracleNamed("strings")
+	return func(c Case) *ev.Verdict {
+		txt := c.Text
+		if c.Project != nil {
+			txt = c.Project.Root
+		}
+		if !utf8.ValidString(txt) {
+			ev.NonTrivial("strings", c.Entry+txt)
+			ev.Class("strings", "text is not UTF-8")
+			if ev.WantSample("strings") {
+				ev.Sample("strings", c)
+			}
+		}
+		return o(c)
+	}
+}()
 
 func TestPropRegressions(t *testing.T) {
 	registerAll()
